@@ -36,7 +36,8 @@ Hows(l) ==
   \cup (IF l.bin = 1 THEN {[name |-> "roundtrip", fmt |-> f] : f \in {"parquet"}} ELSE {})
 Vias == {"asnumpy", "load_each", "load_iter", "dask", "align", "score", "apply", "landscape", "average", "kwargs_score", "kwargs_align"}
 GOps == {[name |-> "none"], [name |-> "align"], [name |-> "head", n |-> 1], [name |-> "tail", n |-> 1],
-         [name |-> "filter", pred |-> [op |-> "ge", col |-> "k", c |-> 1]], [name |-> "sample", n |-> 1]}
+         [name |-> "filter", pred |-> [op |-> "ge", col |-> "k", c |-> 1]], [name |-> "sample", n |-> 1],
+         [name |-> "apply"], [name |-> "sample_noseed", n |-> 1], [name |-> "sample_noseed_align", n |-> 1]}
 Ops(l) ==
        (IF l.kind = "batch" /\ l.bin = 1 /\ Len(l.imgs) < MaxImgs THEN {[name |-> "add_tomogram"]} ELSE {})
   \cup {[name |-> "derive", how |-> h] : h \in Hows(l)}
